@@ -314,6 +314,8 @@ impl World {
         // precondition of the API call (for the C04 no-panic oracle)
         let mut permitted = true;
         let mut inert_check: Option<cx::Connection> = None;
+        let mut fed_text: Option<String> = None;
+        let mut inert_expected = false;
         let res: Result<OpRes, String> = match args {
             ["newaccept", t] => match (parse_tok(t), new_accept(&mut cb, parse_tok(t).unwrap_or([0; 4]))) {
                 (Some(_), Some(c)) => {
@@ -463,7 +465,9 @@ impl World {
                     }
                 }
                 // C03: a datagram without the agreed token is inert
+                fed_text = Some(parse_sent(&bytes).text);
                 if must_be_inert(&fp_before, &bytes) {
+                    inert_expected = true;
                     inert_check = Some(self.eps[i].conn.verif_clone());
                 }
                 let ep = &mut self.eps[i];
@@ -524,7 +528,14 @@ impl World {
                     o.fail("C04/num-chunks", format!("header says {} chunks, datagram carries {}", n, cs.len()));
                 }
                 let ep = &mut self.eps[i];
+                let mut seen_seq: Vec<u16> = vec![];
                 for c in cs {
+                    if let Some((seq, _)) = c.vital {
+                        if seen_seq.contains(&seq) {
+                            o.fail("C04/chunk-duplicated", format!("one datagram carries vital sequence {} twice", seq));
+                        }
+                        seen_seq.push(seq);
+                    }
                     match c.vital {
                         None => {
                             let exp = ep.pending_nonvital.pop_front();
@@ -600,6 +611,17 @@ impl World {
                         if !self.eps[1 - i].sub_nonvital.contains(&data) {
                             o.fail("C01/nonvital-membership", format!("endpoint {} received non-vital chunk {} the peer never submitted", i, to_hex(&data)));
                         }
+                    }
+                }
+            }
+        }
+
+        // ---- a close datagram of the peer that carries the agreed token ends the connection
+        if self.pure && (args[0] == "dl") {
+            if let Some(txt) = &fed_text {
+                if txt.contains(":cx.") && !inert_expected && kind_before != "Disconnected" && kind_before != "Unconnected" {
+                    if !events.iter().any(|e| e.starts_with("dc.")) || self.eps[i].kind() != "Disconnected" {
+                        o.fail("C02/close-ignored", format!("the peer's close datagram {} was not honoured in state {}", txt, kind_before));
                     }
                 }
             }
